@@ -202,6 +202,7 @@ func checkC12(c *Ctx, r *Report) {
 	r.rule("C12.R8", "the subscriber a request is processed for is the one the request names: no code of the module assigns the request's subscriberIdentifier (a look-up that falls back to another subscriber answers 200/204 for a request naming an unknown one)", 1)
 	r.rule("C12.R9", "the rating group named in the recharge path is parsed in the width of the rating-group type (a narrower parse answers 400 for a legal rating group)", 1)
 	r.rule("C12.R10", "a rejected request leaves the subscriber usable: every lock taken by a request is released on all its exits, the 4xx ones included (shared with C11.R4) - otherwise the valid requests that follow are never answered", 4)
+	r.rule("C12.R11", "a valid update or release is not refused by the file writer: its size guard refuses exactly what the 16-bit record length cannot hold (shared with C03.R1)", 2)
 	r.rule("C12.R7", "the notification URI registered at creation is not overwritten by update, release or recharge", 1)
 	r.rule("C12.R6", "after credit control has run, a 4xx answer reports a failed operation and is never a check of the request content", 6)
 
@@ -425,6 +426,7 @@ func checkC12(c *Ctx, r *Report) {
 	checkRequestIdentity(c, r)
 	r.shareFrom(c, checkC11, map[string]string{"C11.R4": "C12.R10"})
 	checkParseWidths(c, r, "C12.R9", c.fn("internal/sbi", "Server.RechargePut"))
+	r.shareFrom(c, checkC03, map[string]string{"C03.R1": "C12.R11"})
 	checkNotifyUriWriters(c, r, "C12.R7")
 
 	// ---- R5 status constants
